@@ -205,6 +205,7 @@ typedef bintree_node_t *(iter_start_t)(bintree_iterator_t *, bintree_node_t *);
 static bool run_iter(const char *which, iter_start_t *start, void (*reffn)(int))
 {
 	bintree_iterator_t it;
+	memset(&it, 0xAA, sizeof(it)); /* the API does not ask for an initialised iterator: hand over junk */
 	nref = 0;
 	reffn(nnodes ? 0 : -1);
 	snapshot();
@@ -577,6 +578,7 @@ static void lists(void)
 				nlv = 0;
 				bintree_traverse_list(root, is_list_fn, list_visitor, NULL);
 				bintree_iterator_t it;
+				memset(&it, 0xAA, sizeof(it));
 				int k = 0;
 				bool ok = true;
 				for (bintree_node_t *n = bintree_iterate_list(&it, root, is_list_fn); n; n = bintree_next(&it), k++) {
